@@ -18,7 +18,15 @@ pub type RequestId = i32;
 pub struct Duration { pub d: u64 }
 pub enum LdapError { E(u8), AdapterInit(String) }
 pub type Result<T> = core::result::Result<T, LdapError>;
-pub struct RawControl { pub ctype: String, pub crit: bool, pub val: Option<Vec<u8>> }
+// `ctype` is a String in the repo; here a wrapper that carries std's `String == &str` / `!=` (content comparison) as a
+// PartialEq specification, so that both operators are decided as written
+pub struct CType { pub s: String }
+impl<'a> vstd::std_specs::cmp::PartialEqSpecImpl<&'a str> for CType {
+    open spec fn obeys_eq_spec() -> bool { true }
+    open spec fn eq_spec(&self, o: &&'a str) -> bool { self.s@ == o@ }
+}
+impl<'a> PartialEq<&'a str> for CType { #[verifier::external_body] fn eq(&self, o: &&'a str) -> (r: bool) { unimplemented!() } }
+pub struct RawControl { pub ctype: CType, pub crit: bool, pub val: Option<Vec<u8>> }
 impl Clone for RawControl { #[verifier::external_body] fn clone(&self) -> (r: RawControl) ensures r == *self { unimplemented!() } }
 //@item file=src/controls_impl.rs kind=enum name=ControlType
 pub struct Control(pub Option<ControlType>, pub RawControl);
@@ -102,7 +110,7 @@ pub fn verif_enumerate_ref<'a>(v: &'a Vec<Control>) -> (r: Vec<(usize, &'a Contr
 // idiom of start(): `ctrls.iter().filter(|c| { if c.ctype == OID { found_pr = true; false } else { true } }).cloned().collect()`
 // -- a closure mutating a captured flag, outside this Verus; replaced by a recorded substitution with this ASSUMED meaning:
 // the controls other than the paging control, in order, and whether a paging control was among them
-pub open spec fn is_paging_oid(c: RawControl) -> bool { c.ctype@ == "1.2.840.113556.1.4.319"@ }
+pub open spec fn is_paging_oid(c: RawControl) -> bool { c.ctype.s@ == "1.2.840.113556.1.4.319"@ }
 pub open spec fn without_paging(s: Seq<RawControl>, n: nat) -> Seq<RawControl> decreases n {
     if n == 0 || n > s.len() { Seq::<RawControl>::empty() } else if is_paging_oid(s[n - 1]) { without_paging(s, (n - 1) as nat) } else { without_paging(s, (n - 1) as nat).push(s[n - 1]) }
 }
@@ -113,15 +121,51 @@ pub proof fn lemma_without_paging_id(s: Seq<RawControl>, n: nat)
 {
     if n > 0 { lemma_without_paging_id(s, (n - 1) as nat); assert(s.take((n - 1) as int).push(s[n - 1]) =~= s.take(n as int)); } else { assert(s.take(0) =~= Seq::<RawControl>::empty()); }
 }
-#[verifier::external_body]
-pub fn verif_without_paging_control(ctrls: &MaybeControls, found_pr: &mut bool) -> (r: Vec<RawControl>)
+//@lift name=PagedResults::start::keep_control file=src/adapters.rs block=".filter(|c|" as="fn keep_control(c: &RawControl, found_pr: &mut bool) -> (r: bool)"
+//@ sub "found_pr = true;" => "*found_pr = true;" count=*
+//@ spec
     ensures
-        r@ == (match *ctrls { Some(v) => without_paging(v@, v@.len()), None => Seq::<RawControl>::empty() }),
-        *final(found_pr) == (*old(found_pr) || (*ctrls matches Some(v) && exists|j: int| 0 <= j < v@.len() && is_paging_oid(#[trigger] v@[j]))),
-{ unimplemented!() }
+        r == !is_paging_oid(*c), //# C16.the_callers_own_paging_control_and_only_that_is_dropped
+        *final(found_pr) == (*old(found_pr) || is_paging_oid(*c)), //# C16.a_callers_paging_control_is_noticed
+//@end
+// std's `iter.filter(p).cloned().collect::<Vec<_>>()`: p on each item in order, the items it accepts cloned in order.
+// NOT a stub: a verified loop over the lifted closure body (the call argument is replaced by lifter rule R12).
+pub struct Kept { pub v: Vec<RawControl> }
+impl Kept {
+    pub fn cloned(self) -> (r: Kept) ensures r == self { self }
+    pub fn collect(self) -> (r: Vec<RawControl>) ensures r == self.v { self.v }
+}
+pub fn verif_filter(v: &Vec<RawControl>, found_pr: &mut bool) -> (k: Kept)
+    ensures
+        k.v@ == without_paging(v@, v@.len()),
+        *final(found_pr) == (*old(found_pr) || exists|j: int| 0 <= j < v@.len() && is_paging_oid(#[trigger] v@[j])),
+{
+    let mut out: Vec<RawControl> = Vec::new();
+    let ghost f0 = *found_pr;
+    let mut i: usize = 0;
+    while i < v.len()
+        invariant i <= v@.len(), out@ == without_paging(v@, i as nat),
+            *found_pr == (f0 || exists|j: int| 0 <= j < i && is_paging_oid(#[trigger] v@[j])),
+        decreases v@.len() - i
+    {
+        let c = &v[i];
+        if keep_control(c, found_pr) { out.push(c.clone()); }
+        i += 1;
+    }
+    Kept { v: out }
+}
 // std: String::from(&str) copies the characters (vstd leaves `from` unspecified for String; recorded substitution)
 #[verifier::external_body]
 pub fn verif_string_of(s: &str) -> (r: String) ensures r@ == s@ { unimplemented!() }
+pub struct CtrlIter<'a> { pub v: &'a Vec<RawControl> }
+pub trait VecCtrlExt { fn verif_ctrl_iter(&self) -> (r: CtrlIter<'_>); }
+impl VecCtrlExt for Vec<RawControl> { fn verif_ctrl_iter(&self) -> (r: CtrlIter<'_>) ensures r.v == self { CtrlIter { v: self } } }
+impl<'a> CtrlIter<'a> {
+    pub fn filter(self, found_pr: &mut bool) -> (k: Kept)
+        ensures k.v@ == without_paging(self.v@, self.v@.len()),
+            *final(found_pr) == (*old(found_pr) || exists|j: int| 0 <= j < self.v@.len() && is_paging_oid(#[trigger] self.v@[j])),
+    { verif_filter(self.v, found_pr) }
+}
 pub struct PhantomS { }
 //@item file=src/adapters.rs kind=struct name=PagedResults retype="PagedResults<S: AsRef<str>, A> => PagedResults; _s: PhantomData<S> => _s: PhantomS"
 pub open spec fn is_paged(c: Control) -> bool { c.0 matches Some(ControlType::PagedResults) }
@@ -130,7 +174,8 @@ pub open spec fn first_paged(s: Seq<Control>, n: int) -> int decreases n { if n 
 impl PagedResults {
 //@lift name=PagedResults::start file=src/adapters.rs impl="impl<'a, S, A> Adapter<'a, S, A> for PagedResults<S, A>" fn=start
 //@ sub "stream: &mut SearchStream<'a, S, A>" => "stream: &mut SearchStream"
-//@ sub "let mut controls: Vec<_> = stream_ldap\n            .controls\n            .as_ref()\n            .unwrap_or(&empty_ctrls)\n            .iter()\n            .filter(|c| {\n                if c.ctype == \"1.2.840.113556.1.4.319\" {\n                    found_pr = true;\n                    false\n                } else {\n                    true\n                }\n            })\n            .cloned()\n            .collect();" => "let mut controls: Vec<RawControl> = verif_without_paging_control(&stream_ldap.controls, &mut found_pr);"
+//@ arg ".filter(|c|" => "&mut found_pr"
+//@ sub ".iter()\n            .filter(" => ".verif_ctrl_iter()\n            .filter("
 //@ sub "let empty_ctrls = vec![];" => "let empty_ctrls: Vec<RawControl> = vec![];"
 //@ sub "String::from(base)" => "verif_string_of(base)"
 //@ sub "String::from(filter)" => "verif_string_of(filter)"
